@@ -26,7 +26,24 @@ import (
 )
 
 type FCfg struct {
-	A int `dials:"a"`
+	A   int   `dials:"a"`
+	Inc fwInc `dials:"inc"`
+}
+
+// fwInc names a file that is loaded while decoding (as a certificate or an include would be); a dangling reference makes the
+// decoder fail with an error that wraps fs.ErrNotExist although the watched file itself exists
+type fwInc string
+
+func (i *fwInc) UnmarshalJSON(b []byte) error {
+	var name string
+	if err := json.Unmarshal(b, &name); err != nil {
+		return err
+	}
+	if name == "missing" {
+		return fmt.Errorf("loading include %q: %w", name, os.ErrNotExist)
+	}
+	*i = fwInc(name)
+	return nil
 }
 
 func (c *FCfg) Verify() error {
@@ -175,6 +192,10 @@ func runFwCase(c fwCase, base string) (mis []fwMis, info map[string]any) {
 	var oldDirs []string
 	mkDo := func(op fwOp) func() {
 		text := fwContent[op.C]
+		if op.C == "junk" && len(c.ID)%2 == 1 {
+			// the other way of not decoding: well-formed, but an include it refers to is missing
+			text = `{"a": 12, "inc": "missing"}`
+		}
 		return func() {
 			defer func() {
 				if r := recover(); r != nil {
